@@ -46,8 +46,8 @@ def obligations(tier):
                 defines=["VP_L=%d" % L, "VP_N=%d" % N],
                 unwind=L * (N + 1) + 3, timeout=800, mem_gb=8,
                 desc="header section: <=%d lines of <=%d symbolic bytes vs RFC 9112 5 reference" % (L, N)))
-    S = 12 if tier == "quick" else 14
+    S = 8 if tier == "quick" else 10
     obs.append(dict(name="chunked", harness="C23_chunked.c", entry="harness_chunked", defines=["VP_S=%d" % S],
-                unwind=S + 3, timeout=900, mem_gb=8,
+                unwind=S + 3, timeout=900 if tier == "quick" else 2400, mem_gb=8,
                 desc="chunked body decoder on a symbolic stream of <=%d bytes vs RFC 9112 7.1 reference" % S))
     return obs
